@@ -310,6 +310,9 @@ def receiver_family(rp):
     f.add("field-of-plain-variable", cls + "def a: A := A()\ndef y: Int := a.x", "accept")
     f.add("field-of-plain-parameter", cls + "def f(a: A) -> Int => a.x", "accept")
     f.add("field-of-defaulted-nullable", cls + "def a: A? := None\ndef b: A := a ? A()\ndef y: Int := b.x", "accept")
+    two = "class A\n    def v: Int := 1\nclass B\n    def v: Int := 2\n"
+    f.add("field-of-partly-nullable-union", two + "def pick(first: Bool) -> {A?, B} => if first then None else B()\ndef a: {A?, B} := pick(True)\ndef c: Int := a.v", "reject")
+    f.add("field-of-plain-union", two + "def pick(first: Bool) -> {A, B} => if first then A() else B()\ndef a: {A, B} := pick(True)\ndef c: Int := a.v", "accept")
     f.add("nullable-field-of-plain-variable", "class B\n    def w: Int? := None\ndef b := B()\ndef y: Int? := b.w", "accept")
     return f
 
@@ -357,6 +360,64 @@ def ob_field_receiver(run, mir, rp, fam):
             ob.status = "pending"
             ob.inconclusive(f"receiver family disagrees although the kernel is as specified: {bad[:2]}")
     run.samples.append({"obligation": ob.id, "queueing_paths": n})
+
+
+RES_RS = "src/check/constrain/generate/resources.rs"
+
+
+def with_family(rp):
+    cls = ("class Conn\n    def sent: Int := 0\n    def __enter__(self) -> Conn => self\n    def __exit__(self, kind: Any, value: Any, trace: Any) => print(\"closed\")\n"
+           "    def send(self, n: Int) -> Int => self.sent + n\n")
+    f = e2.Family(rp)
+    f.add("nullable-resource-into-typed-alias", cls + "def conn: Conn? := None\nwith conn as c: Conn do\n    print(c.send(3))", "reject")
+    f.add("nullable-resource-into-typed-alias-primitive", "def x: Int? := None\nwith x as y: Int do\n    def z: Int := y\n    print(z)", "reject")
+    f.add("nullable-resource-into-untyped-alias", "def x: Int? := None\nwith x as y do\n    def z: Int := y\n    print(z)", "reject")
+    f.add("plain-resource-into-typed-alias", cls + "def conn: Conn := Conn()\nwith conn as c: Conn do\n    print(c.send(3))", "accept")
+    f.add("plain-resource-into-untyped-alias", "def x: Int := 1\nwith x as y do\n    def z: Int := y\n    print(z)", "accept")
+    return f
+
+
+def ob_with_alias(run, mir, rp, fam):
+    ob = run.ob("with-alias-takes-resource-type", "E2", "gen_resources, the arm with an alias: on every successful path - alias annotated or not - a constraint "
+                "ties the resource expression to the alias (so the alias is what the resource is, nullable included), added in the incoming environment; "
+                "an annotation adds a constraint against the declared type and never replaces that link", ["gen_resources (With, alias)"])
+    import ckern
+    fn = e2.find1(mir, file=RES_RS, name="gen_resources")
+    ex = Exec(mir, max_paths=20000, inline=[ckern.ENV_SETTERS])
+    st = State()
+    _rel, lay = ckern.node_enum()
+    mk = lambda n: ckern.mk_ast(n, e2.opq(n + ".node", "Node"))[0]
+    resource, alias, tyast, body = mk("resource"), mk("alias"), mk("ty"), mk("body")
+    ty, ty_some = e2.sym_option("ty", tyast, "Option<Box<AST>>")
+    vals = {"resource": resource, "alias": Agg("Option", "Some", [Agg("tuple", None, [alias, z3.Bool("alias.mutable"), ty])]), "expr": body}
+    if sorted(vals) != sorted(lay["With"]):
+        raise Unsupported(f"Node::With fields changed: {lay['With']}")
+    ast, _ = ckern.mk_ast("ast", ckern.mk_node("With", {k: vals[k] for k in lay["With"]}))
+    env, ev = ckern.sym_env(ex, st)
+    ctx, constr = ckern.refs(ex, st, "ctx", "constr")
+    ends = e2.run_kernel(run, ex, fn, [Ref(ex.new_cell(st, ast)), env, ctx, constr], st)
+    claims, n_ok = [], 0
+    for p in ends:
+        if e2.result_kind(p) != "Ok":
+            continue
+        n_ok += 1
+        s = p.state
+        adds = e2.calls(p, "ConstrBuilder::add")
+        res_e = ex.to_val(s, ex.app("Expected.From::from", [resource], "Expected", s))
+        ali_e = ex.to_val(s, ex.app("Expected.From::from", [alias], "Expected", s))
+        link = e2.disj([z3.And(a["argvals"][2] == res_e, a["argvals"][3] == ali_e, a["argvals"][4] == ex.to_val(s, env)) for a in adds])
+        claims.append(z3.Implies(e2.conj(p.cond), link))
+    if n_ok < 2:
+        raise Unsupported(f"{n_ok} Ok paths in the alias arm")
+    wf = with_family(rp)
+    e2.prove(run, ob, ex, [], e2.conj(claims), {"alias is annotated": ty_some}, wf.as_replay("with-alias:"))
+    if ob.status == "discharged":
+        k, bad = wf.run()
+        run.validated += k
+        if bad:
+            ob.status = "pending"
+            ob.inconclusive(f"with family disagrees although the kernel is as specified: {bad[:2]}")
+    run.samples.append({"obligation": ob.id, "ok_paths": n_ok})
 
 
 def ob_substitute_nullable(run, mir, rp, fam):
@@ -424,7 +485,7 @@ def run(run):
     run.bounds = {"paths": "all acyclic paths of each kernel", "inline_depth": 4,
                   "outside": "that every consuming position reaches this comparison; HashSet internals; "
                              "constructor field-assignment analysis"}
-    for f in (ob_true_name_rule, ob_accessors, ob_union, ob_question_none, ob_field_receiver, ob_substitute_nullable):
+    for f in (ob_true_name_rule, ob_accessors, ob_union, ob_question_none, ob_field_receiver, ob_with_alias, ob_substitute_nullable):
         try:
             f(run, mir, rp, fam)
         except Unsupported as e:
